@@ -129,7 +129,15 @@ def arr(v):
 
 
 def build(box, flag=None):
-    return VT()(box["D"], arr(box["lb"]), arr(box["ub"]), arr(box["plb"]), arr(box["pub"]), flag)
+    given = {k: arr(box[k]) for k in ("lb", "ub", "plb", "pub")}
+    vt = VT()(box["D"], given["lb"], given["ub"], given["plb"], given["pub"], flag)
+    # the arrays are the CALLER's: the same objects define the box for whoever uses them next (a second transformer, a sampler)
+    changed = [k for k in given if not np.array_equal(given[k], arr(box[k]), equal_nan=True)]
+    try:
+        vt._verif_caller_changed = changed
+    except Exception:
+        pass
+    return vt
 
 
 def coord_points(rng, lb, plb, pub, ub, flag):
@@ -446,6 +454,9 @@ def monitors(box, flags, vt, X, cat, G, C, Y, IT, RT, res):
         if not any(k == key for k, _, _ in out):
             out.append((key, what, box_replay(box, clause=key, coordinate=i, **kw)))
     lbT, ubT = vt.lb[0], vt.ub[0]
+    if getattr(vt, "_verif_caller_changed", None):
+        hit("caller-arrays-changed", f"constructing the transformer rewrote the caller's {vt._verif_caller_changed} array(s): the same arrays no longer "
+            "describe the box (a second transformer built from them is a different map; points drawn from them lie elsewhere)", 0)
     for i in range(D):
         lb, plb, pub, ub, f = box["lb"][i], box["plb"][i], box["pub"][i], box["ub"][i], flags[i]
         # plausible bounds -> -1, +1
